@@ -3,6 +3,8 @@
 package cl
 
 import (
+	"strings"
+
 	"github.com/ohler55/slip"
 )
 
@@ -70,7 +72,13 @@ func (f *Unintern) Call(s *slip.Scope, args slip.List, depth int) (result slip.O
 	if p == &slip.KeywordPkg && so[0] != ':' {
 		so = slip.Symbol(":") + so
 	}
-	if p.Remove(string(so)) {
+	// The function of the symbol goes with it.
+	removed := false
+	if fi := p.GetFunc(strings.ToLower(string(so))); fi != nil && fi.Pkg == p {
+		p.Undefine(string(so))
+		removed = true
+	}
+	if p.Remove(string(so)) || removed {
 		return slip.True
 	}
 	return nil
